@@ -1350,14 +1350,22 @@ def _bind_cls_array(w, op, basis, nbf, rs, reuse, pts, charges_for, int_array, f
         extra += [["points_coords", p, "coords"], ["points_charge", charges_for(p.shape[0], 4), "charges"]]
     asym = name == "OverlapAsymmetric"
     cts = [s.coord_type for s in basis]
+
+    def ct_form():
+        """The documented forms of a coordinate-type argument: list, tuple, or one string for all shells."""
+        r = rs.random()
+        if r < 0.2 and len(set(cts)) == 1 and method == "lincomb":
+            return cts[0]
+        return tuple(cts) if r < 0.5 else list(cts)
+
     args = [["basis", basis, "basis"]]
     if asym:
         args.append(["basis_two", basis, "basis"])
     margs = []
     if method == "mix":
-        margs.append(["coord_types", list(cts), "ct"])
+        margs.append(["coord_types", ct_form(), "ct"])
         if asym:
-            margs.append(["coord_types_two", list(cts), "ct"])
+            margs.append(["coord_types_two", ct_form(), "ct"])
     elif method == "lincomb":
         n = sum(((2 * s.angmom + 1) if s.coord_type == "spherical" else ((s.angmom + 1) * (s.angmom + 2)) // 2)
                 * s.coeffs.shape[1] for s in basis)
@@ -1366,9 +1374,9 @@ def _bind_cls_array(w, op, basis, nbf, rs, reuse, pts, charges_for, int_array, f
                     lambda: np.array([[rs.uniform(-1, 1) for _ in range(n)] for _ in range(T)]).reshape(T, n))
         if asym:
             margs += [["transform_one", t, "transform"], ["transform_two", t, "transform"],
-                      ["coord_type_one", list(cts), "ct"], ["coord_type_two", list(cts), "ct"]]
+                      ["coord_type_one", ct_form(), "ct"], ["coord_type_two", ct_form(), "ct"]]
         else:
-            margs += [["transform", t, "transform"], ["coord_type", list(cts), "ct"]]
+            margs += [["transform", t, "transform"], ["coord_type", ct_form(), "ct"]]
     allv = (margs + extra) if instance is not None else (args + margs + extra)
     valid = True
     inv = op.get("invalid")
